@@ -80,6 +80,10 @@ NextG(g) == /\ ~fin /\ Len(hist) < MaxHist
 Spec == Init /\ [][NextG(TRUE)]_vars
 GenSpec == Init /\ [][NextG(FALSE)]_vars
 
+(* random long histories (tlc -simulate): only advancing steps, known deviations kept out *)
+SimNext == ~fin /\ Len(hist) < MaxHist /\ \E op \in Ops : Do(op, TRUE) /\ fin' = FALSE /\ s'.n <= MaxLen
+SimSpec == Init /\ [][SimNext]_vars
+
 (* ---- properties ---------------------------------------------------------------------------- *)
 ObsOf(S) == [units |-> Units(S), len |-> S.n, empty |-> (S.n = 0), term |-> Term(S), cap |-> Capacity(S)]
 
